@@ -1,5 +1,5 @@
 (* evaluators used by generated cases files; depends on the model only *)
-From Coq Require Import List NArith ZArith Bool.
+From Coq Require Import List NArith ZArith Bool Uint63.
 From K.Model Require Export C01.
 Import ListNotations.
 Local Open Scope N_scope.
@@ -42,17 +42,19 @@ Fixpoint expand (prev : list vw) (l : list ob) : list (obs N) :=
 Record case := mkcase {
   k_mem : bool; k_skip : bool; k_lenchk : bool; k_retry : N; k_ttl : N; k_genpl : Z;
   k_names : list N;                (* the names observed after every operation *)
-  k_ptab : list (N * N * N);       (* content table: length, the bytes as one little-endian base-256 number, digest name *)
+  k_ptab : list (N * list int * N);  (* content table: length, the bytes packed 7 per primitive integer
+                                        (little-endian; primitive literals parse fast), digest name *)
   k_ops : list (op N);
   k_ob : list ob
 }.
-Fixpoint unpack (n : nat) (x : N) : bytes :=
-  match n with
-  | O => []
-  | S k => (x mod 256) :: unpack k (x / 256)
-  end.
+Definition byte_of (w : int) (i : int) : N :=
+  Z.to_N (Uint63.to_Z (Uint63.land (Uint63.lsr w (Uint63.mul 8 i)) 255)).
+Definition unpack7 (w : int) : bytes :=
+  [byte_of w 0; byte_of w 1; byte_of w 2; byte_of w 3; byte_of w 4; byte_of w 5; byte_of w 6]%uint63.
+Definition unpack (l : N) (ws : list int) : bytes :=
+  firstn (N.to_nat l) (concat (map unpack7 ws)).
 Definition k_tab (c : case) : list (bytes * N) :=
-  map (fun e => let '(l, x, d) := e in (unpack (N.to_nat l) x, d)) (k_ptab c).
+  map (fun e => let '(l, ws, d) := e in (unpack l ws, d)) (k_ptab c).
 Definition k_obs (c : case) : list (obs N) := expand (map (fun _ => V0) (k_names c)) (k_ob c).
 
 (* the model evaluated is the FIXED code (fixes/C01_mem_path_verify.patch applied) *)
